@@ -159,7 +159,7 @@ func (d *Document) UpdateTOC() error {
 		},
 		Runs: []Run{
 			{
-				Text: Text{Content: config.Title},
+				Text: Text{Content: config.Title, Space: "preserve"},
 				Properties: &RunProperties{
 					FontFamily: &FontFamily{ASCII: "宋体"},
 					FontSize:   &FontSize{Val: "21"},
@@ -416,7 +416,7 @@ func (d *Document) addTOCEntry(entry TOCEntry, config *TOCConfig) error {
 		// 标题文本
 		titleRun := Run{
 			Properties: &RunProperties{},
-			Text:       Text{Content: entry.Text},
+			Text:       Text{Content: entry.Text, Space: "preserve"},
 		}
 		hyperlink.Runs = append(hyperlink.Runs, titleRun)
 
@@ -444,14 +444,14 @@ func (d *Document) addTOCEntry(entry TOCEntry, config *TOCConfig) error {
 		// 简化处理，直接作为文本添加
 		hyperlinkRun := Run{
 			Properties: &RunProperties{},
-			Text:       Text{Content: entry.Text},
+			Text:       Text{Content: entry.Text, Space: "preserve"},
 		}
 		entryPara.Runs = append(entryPara.Runs, hyperlinkRun)
 
 		if config.ShowPageNum {
 			pageRun := Run{
 				Properties: &RunProperties{},
-				Text:       Text{Content: fmt.Sprintf("\t%d", entry.PageNum)},
+				Text:       Text{Content: fmt.Sprintf("\t%d", entry.PageNum), Space: "preserve"},
 			}
 			entryPara.Runs = append(entryPara.Runs, pageRun)
 		}
@@ -459,14 +459,14 @@ func (d *Document) addTOCEntry(entry TOCEntry, config *TOCConfig) error {
 		// 不使用超链接的简单文本
 		titleRun := Run{
 			Properties: &RunProperties{},
-			Text:       Text{Content: entry.Text},
+			Text:       Text{Content: entry.Text, Space: "preserve"},
 		}
 		entryPara.Runs = append(entryPara.Runs, titleRun)
 
 		if config.ShowPageNum {
 			pageRun := Run{
 				Properties: &RunProperties{},
-				Text:       Text{Content: fmt.Sprintf("\t%d", entry.PageNum)},
+				Text:       Text{Content: fmt.Sprintf("\t%d", entry.PageNum), Space: "preserve"},
 			}
 			entryPara.Runs = append(entryPara.Runs, pageRun)
 		}
@@ -684,7 +684,7 @@ func (d *Document) createWordFieldTOC(config *TOCConfig, entries []TOCEntry) []i
 		},
 		Runs: []Run{
 			{
-				Text: Text{Content: config.Title},
+				Text: Text{Content: config.Title, Space: "preserve"},
 				Properties: &RunProperties{
 					FontFamily: &FontFamily{ASCII: "宋体"},
 					FontSize:   &FontSize{Val: "21"},
@@ -874,12 +874,12 @@ func (d *Document) createTOCEntryWithFields(entry TOCEntry, config *TOCConfig) *
 
 	// 添加标题文本
 	para.Runs = append(para.Runs, Run{
-		Text: Text{Content: entry.Text},
+		Text: Text{Content: entry.Text, Space: "preserve"},
 	})
 
 	// 添加制表符
 	para.Runs = append(para.Runs, Run{
-		Text: Text{Content: "\t"},
+		Text: Text{Content: "\t", Space: "preserve"},
 	})
 
 	// 添加页码引用域
